@@ -963,6 +963,12 @@ class Interp:
                         lens(x)
         lens(old)
         lens(new)
+        # every upper bound the facts state for the old value is a candidate threshold as well (e.g. the length of the
+        # window a count was bounded by)
+        if old != wl:
+            for k, c in st.facts.items():
+                if k[0] == "lt" and c == ("bool", False) and k[2] == old and k[1][0] == "term" and not self.mentions(k[1], w):
+                    cands.add(k[1])
         keep = []
         for c in sorted(cands, key=repr):
             ok_old = (c in old_bounds) if old_bounds is not None else self.decide_le(st, old, c)
@@ -1485,6 +1491,15 @@ class Interp:
                                   else ("variants", frozenset(vs)))
             else:
                 new = ("term", ("hv", pi, body.id, call.fr.body.id, call.fr.bb, nvis)) if nvis < self.loop_bound else TOP
+                pty = body.locals[pi]["ty"] if pi < len(body.locals) else ""
+                base_p = p[:-1] if (p and p[-1] == ("f", "[]")) else p
+                if "[" in pty and base_p == l[2] and (base_p + (("$len",),)) not in st.mem.get(root, {}):
+                    # stores into the elements of a slice parameter: its length stays what it was
+                    ln = self.len_of(st, ("ref", root, base_p))
+                    if ln[0] in ("int", "term"):
+                        st.write_leaf(root, base_p + (("$len",),), ln)
+                    self.havoc_at(st, root, base_p, new)
+                    continue
                 self.havoc_at(st, root, p, new)
         if nvis < self.loop_bound:
             res = ("term", ("call", call.path, call.fr.body.id, call.fr.bb, nvis))
@@ -1536,6 +1551,15 @@ class Interp:
         if l[0] == "fn":
             # a function item used as a callable (`opt.and_then(helper)`): run the local function on the arguments
             body = self.prog.bodies.get(l[1])
+            if body is None and on_return is not None:
+                # a tuple-variant / tuple-struct constructor used as a function value (`res.map(Holder::WithBody)`)
+                from .axioms import _ctor_variant, mk_variant
+                v = _ctor_variant(self.prog, l[1])
+                if v is not None:
+                    args_ = list(arg_trees)
+                    tree = mk_variant(v, *args_) if v != "" else dict(
+                        [((), TOP)] + [((("f", str(i)),) + rp, lf) for i, t_ in enumerate(args_) for rp, lf in t_.items()])
+                    return on_return(self, st, tree)
             if body is None or body.is_derived:
                 return NotImplemented
             return self.enter(st, fr, body, list(arg_trees), None, None, on_return=on_return)
@@ -1563,6 +1587,11 @@ class Interp:
                 new = TOP
                 if site is not None and site[-1] < self.loop_bound:
                     new = ("term", ("hv", i) + site)   # a new, unknown value (distinct from the old one)
+                if types is not None and "[" in types[i] and (l[2] + (("$len",),)) not in st.mem.get(l[1], {}):
+                    # `&mut [T]`: the callee can change the elements, not how many there are
+                    ln = self.len_of(st, l)
+                    if ln[0] in ("int", "term"):
+                        st.write_leaf(l[1], l[2] + (("$len",),), ln)
                 self.havoc_at(st, l[1], l[2], new)
 
     def havoc_at(self, st, root, path, new):
